@@ -1,4 +1,4 @@
-(* Ted/CostTie.v — tie of the label predicates of the Python cost model (Ted/Cost.v) to the Go source by decision tables.
+(* Tie/TedTie.v — tie of the label predicates of the Python cost model (Ted/Cost.v) to the Go source by decision tables.
 
    The translator (translator/gen_ted.go via the interpreter translator/goeval.go) evaluates the functions
      isStructuralNode, isControlFlowNode, isExpressionNode, isLiteralNode, isIdentifierNode, isTopLevelDefinition,
